@@ -152,6 +152,21 @@ bool Hist::opAddParam() {
 
 // Parameter::set with explicit dimensions on a stand-alone parameter (C09 consistency predicate), then optionally added.
 bool Hist::opParamSet() {
+    if (rng.chance(15)) {
+        // re-shaping a parameter with ITS OWN values: p.set(p.valuesAs...(), dims).  The argument aliases the store that set() replaces.
+        Param q("RESHAPE"); int t = rng.range(0, 2); size_t a = (size_t)rng.range(1, 4), b = (size_t)rng.range(1, 4); std::vector<size_t> dm; dm.push_back(a); dm.push_back(b);
+        std::vector<int> vi; std::vector<float> vf; std::vector<std::string> vs;
+        for (size_t i = 0; i < a * b; ++i) { vi.push_back(rng.range(-500, 500)); vf.push_back((float)rng.range(-500, 500) / 8.f); vs.push_back(std::string((size_t)rng.range(1, 6), (char)('a' + i % 26))); }
+        Outcome oc;
+        if (t == 0) { q.set(vi); VF_TRY(oc, q.set(q.valuesAsInt(), dm)); }
+        else if (t == 1) { q.set(vf); VF_TRY(oc, q.set(q.valuesAsFloat(), dm)); }
+        else { q.set(vs); VF_TRY(oc, q.set(q.valuesAsString(), dm)); }
+        log.ev("param_reshape_with_own_values", std::string("type=") + (t == 0 ? "int" : t == 1 ? "float" : "string") + " dims=" + dimsToStr(dm), oc); bump("op:param_reshape_with_own_values"); bump("c09_set_consistent");
+        SParam st = takeParam(q); bool same = t == 0 ? st.iv == vi : t == 1 ? st.fv.size() == vf.size() : st.sv == vs; if (t == 1 && same) for (size_t i = 0; i < vf.size(); ++i) if (st.fv[i] != fbits(vf[i])) same = false;
+        if (oc.threw) log.viol("C09", "set/consistent_refused/" + oc.cls, "p.set(p.values(), dims) with a consistent shape: " + oc.what);
+        else if (!same) log.viol("C09", "set/own_values_lost", std::string("after p.set(p.valuesAs") + (t == 0 ? "Int" : t == 1 ? "Float" : "String") + "(), " + dimsToStr(dm) + ") the parameter holds " + std::to_string((unsigned long long)(st.iv.size() + st.fv.size() + st.sv.size())) + " values instead of " + std::to_string((unsigned long long)(a * b)));
+        return true;
+    }
     Param p("SETPROBE", "before");
     int t0 = rng.range(0, 2);
     if (t0 == 0) p.set(std::vector<int>(3, 7)); else if (t0 == 1) p.set(std::vector<float>(2, 1.5f)); else p.set(std::vector<std::string>(2, "keep"));
